@@ -649,5 +649,6 @@ V("C03", "file-reports-equal-by-basename", "F", "R9", R + "report.py", "    def 
 V("C03", "file-reports-equal-by-path", "S", "", R + "report.py", "    def __hash__(self) -> int:\n        if self.chk_sum is not None:", "    def __eq__(self, other: object) -> bool:\n        return isinstance(other, FileReport) and (self.path, self.chk_sum) == (other.path, other.chk_sum)\n\n    def __hash__(self) -> int:\n        if self.chk_sum is not None:")
 V("C08", "annotated-file-read-leniently", "F", "R2", ANP, 'with open(path, "r", encoding="utf-8", newline="") as fp:', 'with open(path, "r", encoding="utf-8", errors="replace", newline="") as fp:')
 V("C14", "duplicate-guard-on-other-container", "F", "R12", R + "project.py", "            if identifier in license_files:\n", "            if identifier in self.licenses:\n")
-V("C10", "blank-copyright-accepted", "F", "R9", CAP, "        if any(not value.strip() for value in values or ()):\n", "        if False:\n")
+V("C10", "blank-copyright-accepted", "F", "R9", CAP, "            if not value.strip():\n", "            if False:\n")
+V("C10", "multi-line-value-accepted", "F", "R9", CAP, "            if len(value.splitlines()) > 1:\n", "            if False:\n")
 
